@@ -41,14 +41,19 @@ MUTATIONS=(
 "HARMLESS-reorder-lets|PASS|$ZH|/let mut repetitions = 1_usize;/{h;d};/let zobrist = self.history\[start_index as usize\];/{G}"
 "HARMLESS-literal-suffix|PASS|$ZH|s/repetitions += 1;/repetitions += 1_usize;/"
 "HARMLESS-unchanged|PASS|$ZH|s/x/x/"
-EXTRA_MUTATIONS_PLACEHOLDER
+"validate-rank-count-8-to-7|FAIL|$FEN|s/if count != 8 {/if count != 7 {/"
+"validate-rank-and-to-or|FAIL|$FEN|s/chars\[i\].is_ascii_digit() \&\& chars\[i + 1\].is_ascii_digit()/chars[i].is_ascii_digit() || chars[i + 1].is_ascii_digit()/"
+"think-time-threshold-20-to-30|FAIL|$SEARCH|s/20\.\. => 1\.0,/30.. => 1.0,/"
+"think-time-factor-075-to-05|FAIL|$SEARCH|s/10\.\. => 0\.75,/10.. => 0.5,/"
+"think-time-div-60-to-30|FAIL|$SEARCH|s/time_remaining\.div(60)/time_remaining.div(30)/"
+"think-time-factor-not-dyadic|FAIL|$SEARCH|s/10\.\. => 0\.75,/10.. => 0.8,/"
+"UNSUPPORTED-loop-break|FAIL|$ZH|s/current_index -= 2;/current_index -= 2; if current_index == 7 { break; }/"
 )
 
 ok=0; bad=0
 ORIG_LEAN_PATH=$(cd $LEANDIR && lake env printenv LEAN_PATH)
 REALLIB=$LEANDIR/.lake/build/lib/lean
 for m in "${MUTATIONS[@]}"; do
-  [ "$m" = "EXTRA_MUTATIONS_PLACEHOLDER" ] && continue
   IFS='|' read -r name expect file expr <<< "$m"
   d=$WORK/$name; mkdir -p $d/src $d/gen $d/lib/Inkayaku/Gen/Rs
   # overlay of the real build products: everything is a symlink except Inkayaku/Gen/Rs (a package is looked up in
